@@ -27,7 +27,14 @@ fn falsy(i: usize) -> Value {
 
 pub fn letter(l: usize, i: usize) -> Value {
     match l {
-        0 => json!(format!("T{}", i)),
+        // truthy literals: strings and inert containers whose content is operation-shaped (in unary
+        // and in array spelling) - the selected operand is returned as written
+        0 => match i % 4 {
+            0 => json!(format!("T{}", i)),
+            1 => json!([{"var": "t1"}, i]),
+            2 => json!({"x": {"log": "LEAK"}, "y": [{"var": ["t0"]}, i]}),
+            _ => json!([[{"+": "x"}], {"log": ["LEAK"], "i": i}]),
+        },
         1 => falsy(i),
         // data references through every kind of path (plain key, array index, negative index, string
         // index, escaped dot, nested, integer key)
@@ -180,6 +187,85 @@ pub fn run(ctx: &mut Ctx) {
             }
         });
     }
+    // spine trees: control flow nested three levels deep through any position, every operand count
+    // 0..3 (if-only: 0..4) at every level, leaves traced and marked by their path
+    {
+        fn leafv(truthy: bool, path: &str) -> Value {
+            if truthy { json!({"log": format!("T{}", path)}) } else { json!({"log": [if path.len() % 2 == 0 { json!(0) } else { json!("") }]}) }
+        }
+        // all spine trees of the given depth: (tree) built through a callback to avoid materialising
+        fn spine(depth: usize, ops: &[&str], maxn: usize, path: String, out: &mut Vec<Value>) {
+            // leaves
+            out.push(leafv(true, &path));
+            out.push(leafv(false, &path));
+            if depth == 0 {
+                return;
+            }
+            for k in ops {
+                out.push(op(k, vec![]));
+                for n in 1..=maxn {
+                    for p in 0..n {
+                        let mut subs = Vec::new();
+                        spine(depth - 1, ops, maxn, format!("{}{}", path, p), &mut subs);
+                        // the other positions: every truthy / falsy assignment
+                        for mask in 0..(1u32 << (n - 1)) {
+                            for sub in &subs {
+                                let mut args = Vec::new();
+                                let mut bit = 0;
+                                for i in 0..n {
+                                    if i == p {
+                                        args.push(sub.clone());
+                                    } else {
+                                        args.push(leafv(mask & (1 << bit) != 0, &format!("{}{}", path, i)));
+                                        bit += 1;
+                                    }
+                                }
+                                out.push(op(k, args));
+                            }
+                        }
+                    }
+                }
+            }
+        }
+        // the top level is sharded by (operator, count, position)
+        for (ops, maxn, tag) in [(&["if", "and", "or"][..], 3usize, "mixed"), (&["if"][..], 4usize, "if-only")] {
+            for k in ops {
+                for n in 1..=maxn {
+                    for p in 0..n {
+                        if !ctx.mine() {
+                            continue;
+                        }
+                        let mut subs = Vec::new();
+                        spine(2, ops, maxn, format!("{}", p), &mut subs);
+                        for mask in 0..(1u32 << (n - 1)) {
+                            for sub in &subs {
+                                ctx.edge();
+                                let mut args = Vec::new();
+                                let mut bit = 0;
+                                for i in 0..n {
+                                    if i == p {
+                                        args.push(sub.clone());
+                                    } else {
+                                        args.push(leafv(mask & (1 << bit) != 0, &format!("{}", i)));
+                                        bit += 1;
+                                    }
+                                }
+                                let r = op(k, args);
+                                let o1 = ctx.check(&format!("spine:{}", tag), &r, &null);
+                                if tag == "if-only" {
+                                    let r2 = rename_if(&r);
+                                    let o2 = ctx.check("spine:?:", &r2, &null);
+                                    if o1.out != o2.out || o1.log != o2.log {
+                                        ctx.law_fail("law:if==?:", &r2, &null, o1.show(), o2.show());
+                                    }
+                                }
+                            }
+                        }
+                    }
+                }
+            }
+        }
+    }
     // size probes: long operand lists, the deciding operand at every position
     for n in al::size_classes(ctx.tier_thorough) {
         if n > 300 {
@@ -265,4 +351,5 @@ pub fn run(ctx: &mut Ctx) {
         }
     }
     let _ = al::v0;
+    crate::spaces::render_probes(ctx, &["if", "?:", "and", "or"]);
 }
